@@ -121,34 +121,41 @@ def fragDefs (d : Doc) : List (String × String × Nat × List Sel) :=
 
 /-! ### NoFragmentCyclesChecker.leave_document -/
 
-/-- `_search(outer, acc, path)`: `acc` is the shared dict; unfixed: `break` at a visited fragment -/
+/-- the loop over `self._spreads[outer]` inside `_search`; `rec` is `_search` itself (one level deeper).
+    unfixed: `break` at a visited fragment; fix 874f2dd: `continue` -/
+def cycLoop (fx : Fixes) (rec : String → AL (List String) → List String → AL (List String)) (path : List String) :
+    List String → AL (List String) → AL (List String)
+  | [], acc => acc
+  | inner :: rest, acc =>
+    if AL.has acc inner then (if fx.v11 then cycLoop fx rec path rest acc else acc)
+    else cycLoop fx rec path rest (rec inner (AL.set acc inner path) (path ++ [inner]))
+
+/-- `_search(outer, acc, path)`: `acc` is the shared dict -/
 def cycSearch (fx : Fixes) (spreads : AL (List String)) : Nat → String → AL (List String) → List String → AL (List String)
   | 0, _, acc, _ => acc
   | fuel+1, outer, acc, path =>
     match AL.get? spreads outer with
     | none => acc
-    | some inners =>
-      let rec loop (inners : List String) (acc : AL (List String)) : AL (List String) :=
-        match inners with
-        | [] => acc
-        | inner :: rest =>
-          if AL.has acc inner then (if fx.v11 then loop rest acc else acc)
-          else loop rest (cycSearch fx spreads fuel inner (AL.set acc inner path) (path ++ [inner]))
-      loop inners acc
+    | some inners => cycLoop fx (cycSearch fx spreads fuel) path inners acc
+
+def cycFuel (spreads : AL (List String)) : Nat := spreads.foldl (fun n p => n + p.2.length + 1) 2
+
+/-- one iteration of `for outer, inner_spreads in flat_spreads` in `leave_document`:
+    state = (errors, `cyclic`, IndexError?) -/
+def cycStep (fx : Fixes) (spreads : AL (List String)) (st : Nat × List String × Bool) (outer : String) :
+    Nat × List String × Bool :=
+  let acc := cycSearch fx spreads (cycFuel spreads) outer [] []
+  match AL.get? acc outer with
+  | none => st
+  | some path =>
+    let cyclic := outer :: st.2.1
+    match path.getLast? with
+    | none => (st.1, cyclic, true)
+    | some l => if cyclic.contains l then (st.1, cyclic, st.2.2) else (st.1 + 1, cyclic, st.2.2)
 
 /-- (errors, IndexError?) of `leave_document` -/
 def cycErrors (fx : Fixes) (spreads : AL (List String)) : Nat × Bool :=
-  let fuel := spreads.foldl (fun n p => n + p.2.length + 1) 2
-  let step (st : Nat × List String × Bool) (outer : String) : Nat × List String × Bool :=
-    let acc := cycSearch fx spreads fuel outer [] []
-    match AL.get? acc outer with
-    | none => st
-    | some path =>
-      let cyclic := outer :: st.2.1
-      match path.getLast? with
-      | none => (st.1, cyclic, true)
-      | some l => if cyclic.contains l then (st.1, cyclic, st.2.2) else (st.1 + 1, cyclic, st.2.2)
-  let r := (AL.keys spreads).foldl step (0, [], false)
+  let r := (AL.keys spreads).foldl (cycStep fx spreads) (0, [], false)
   (r.1, r.2.2)
 
 /-! ### ValuesOfCorrectTypeChecker -/
